@@ -18,13 +18,14 @@ use eyre::WrapErr;
 
 use crate::{
     component::ExecResult,
-    components::{boundary, initialization, mutation, replacement, selection, utils},
+    components::{boundary, initialization, mutation, replacement, selection, utils, Scope},
     conditions::Condition,
     configuration::Configuration,
     heuristics::ls,
     identifier::{Global, Identifier},
     logging::Logger,
     problems::{LimitedVectorProblem, SingleObjectiveProblem, VectorProblem},
+    state::common,
     Component,
 };
 
@@ -137,7 +138,22 @@ where
                 .do_(perturbation)
                 .evaluate_with::<I>()
                 .do_(selection::All::new())
-                .scope_(|builder| builder.do_(ls))
+                .do_(Scope::new_with(
+                    |_| Ok(()),
+                    vec![ls],
+                    |state, inner| {
+                        // The evaluations of the local search are counted within its scope,
+                        // but are still part of the evaluations of the whole run.
+                        if let Ok(evaluations) = inner.try_get_value::<common::Evaluations>() {
+                            if let Ok(mut total) =
+                                state.try_borrow_value_mut::<common::Evaluations>()
+                            {
+                                *total += evaluations;
+                            }
+                        }
+                        Ok(())
+                    },
+                ))
                 .update_best_individual()
                 .do_(replacement::MuPlusLambda::new(1))
                 .do_(Logger::new())
